@@ -200,3 +200,11 @@ Theorem C10_val_swap_index_dependence_refuted :
     observe (exec en (val_swap_lhs "tmp" TInt x y) []) <> observe (exec en (val_swap_rhs x y) []).
 Proof. exact val_swap_index_dependence_refuted. Qed.
 Print Assumptions C10_val_swap_index_dependence_refuted.
+
+(* newDeref *)
+Theorem C10_new_deref_zero_literal : forall en t e h,
+  zero_lit t = Some e ->
+  (exists k s, e = ELit k s t /\ zero_value_text "T" (match t with TInt => ZInt | TFloat => ZFloat | _ => ZString end) true = Some s) /\
+  exists v, evalS en e h = Some (RVal v, h) /\ cmp_val OEq v (default_value t) = Some true.
+Proof. exact new_deref_zero_literal. Qed.
+Print Assumptions C10_new_deref_zero_literal.
